@@ -87,12 +87,28 @@ class Ledgers:
                     self.cell_dicts.add(tgt.value.id)
         params = {a.arg for a in fn.args.args + fn.args.kwonlyargs + fn.args.posonlyargs}
         self.cell_dicts |= {n for n in stored & returned if n not in params}
-        # locals bound to cell objects: loop vars over <celldict>.items(), X = <celldict>[k]
+        #   * local dicts that are merged into a cell dict (`cells.update(part)`, `cells |= part`)
+        for _ in range(3):
+            for n in walk_no_nested(fn):
+                part = None
+                if isinstance(n, ast.Expr) and isinstance(n.value, ast.Call) and isinstance(n.value.func, ast.Attribute) \
+                        and n.value.func.attr == "update" and u(n.value.func.value) in self.cell_dicts \
+                        and len(n.value.args) == 1 and not n.value.keywords:
+                    part = n.value.args[0]
+                elif isinstance(n, ast.AugAssign) and isinstance(n.op, ast.BitOr) and u(n.target) in self.cell_dicts:
+                    part = n.value
+                if isinstance(part, ast.Name) and part.id in stored and part.id not in params:
+                    self.cell_dicts.add(part.id)
+        # locals bound to cell objects: loop vars over <celldict>.items() / .values(), X = <celldict>[k]
         for n in walk_no_nested(fn):
             if isinstance(n, ast.For) and isinstance(n.iter, ast.Call) and isinstance(
                     n.iter.func, ast.Attribute) and n.iter.func.attr == "items" \
                     and u(n.iter.func.value) in self.cell_dicts and isinstance(n.target, ast.Tuple):
                 self.cell_objs.add(u(n.target.elts[1]))
+            if isinstance(n, ast.For) and isinstance(n.iter, ast.Call) and isinstance(
+                    n.iter.func, ast.Attribute) and n.iter.func.attr == "values" \
+                    and u(n.iter.func.value) in self.cell_dicts and isinstance(n.target, ast.Name):
+                self.cell_objs.add(n.target.id)
             if isinstance(n, ast.Assign) and isinstance(n.value, ast.Subscript) \
                     and u(n.value.value) in self.cell_dicts and isinstance(n.targets[0], ast.Name):
                 self.cell_objs.add(n.targets[0].id)
@@ -125,6 +141,12 @@ class Ledgers:
             return None  # re-storing an existing cell object
         return self.te.ev(e)
 
+    def is_cell_obj(self, e: ast.AST) -> bool:
+        """A cell object: a local bound to one, or `<cell dict>[key]` itself."""
+        if isinstance(e, ast.Name):
+            return e.id in self.cell_objs
+        return isinstance(e, ast.Subscript) and u(e.value) in self.cell_dicts
+
     def cell_deltas(self, suite: list[ast.stmt]) -> list[tuple[ast.stmt, Poly]]:
         out = []
         for s in suite:
@@ -134,7 +156,7 @@ class Ledgers:
                 if v is not None:
                     out.append((s, v))
             elif isinstance(s, ast.AugAssign) and isinstance(s.target, ast.Attribute) \
-                    and s.target.attr == "power" and u(s.target.value) in self.cell_objs:
+                    and s.target.attr == "power" and self.is_cell_obj(s.target.value):
                 d = self.te.ev(s.value)
                 if isinstance(s.op, ast.Sub):
                     d = -d
@@ -150,7 +172,7 @@ class Ledgers:
                     raise AnalysisError(f"{self.fn.qual}: cell updated with {type(s.op).__name__}")
                 out.append((s, d))
             elif isinstance(s, ast.Assign) and len(s.targets) == 1 and isinstance(s.targets[0], ast.Attribute) \
-                    and s.targets[0].attr == "power" and u(s.targets[0].value) in self.cell_objs:
+                    and s.targets[0].attr == "power" and self.is_cell_obj(s.targets[0].value):
                 # X.power = X.power + e
                 cur = Poly.atom(u(s.targets[0]))
                 out.append((s, self.te.ev(s.value) - cur))
@@ -612,8 +634,26 @@ def check_l3(run: Run, prog: Program, ledgers: dict[str, Ledgers]) -> None:
             comp = slg.complements
             writes = [s for s in body_walk(sfn.node) if isinstance(s, (ast.Assign, ast.AugAssign, ast.AnnAssign))
                       and any(u(w) == acc for w in _targets(s))]
-            feeds = [s for s in writes if (nu := slg.name_update(s)) is not None and nu[0] == acc
-                     and any(nu[1] == Poly.atom(c) for c in comp)]
+            scfg = CFG(sfn.node, sfn.file)
+            spv = Prov(prog, sfn, scfg)
+
+            def fed_by_complement(st: ast.stmt) -> bool:
+                # `acc += c` / `acc = acc + c` where c is (an alias of) a complement ledger's current value
+                nu = slg.name_update(st)
+                if nu is None or nu[0] != acc:
+                    return False
+                if any(nu[1] == Poly.atom(c) for c in comp):
+                    return True
+                sites = scfg.nodes_of(st)
+                if not sites or not isinstance(st, (ast.AugAssign, ast.Assign, ast.AnnAssign)):
+                    return False
+                val = st.value if isinstance(st, ast.AugAssign) and isinstance(st.op, ast.Add) else None
+                if val is None and not isinstance(st, ast.AugAssign):
+                    d = spv.term(sites[0], st.value) - Poly.atom(acc)  # type: ignore[arg-type]
+                    return any(d == Poly.atom(c) for c in comp)
+                return val is not None and any(spv.term(sites[0], val) == Poly.atom(c) for c in comp)
+
+            feeds = [s for s in writes if fed_by_complement(s)]
             inits = [s for s in writes if s not in feeds]
             ok = bool(feeds) and len(inits) == 1 and getattr(inits[0], "value", None) is not None \
                 and te.ev(inits[0].value).is_zero()  # type: ignore[union-attr]
@@ -872,36 +912,58 @@ def check_sign(run: Run, prog: Program) -> None:
                ("isnot", frozenset((flag, "True"))), ("!=", frozenset((flag, "True")))]
         return True if c in pos else False if c in neg else None
 
+    # the bound tables written for supply=True and for supply=False, by partial evaluation of the
+    # selector: `if supply: A else: B`, `if not supply: B; continue`, per-statement ternaries and any
+    # nesting / unswitching of the loops give the same two tables {cell -> value expression}
+    def table_for(flag_value: bool) -> dict[str, list[tuple[ast.AST, ast.AST]]]:
+        out: dict[str, list[tuple[ast.AST, ast.AST]]] = {}
+
+        def pick(e: ast.AST) -> ast.AST:
+            while isinstance(e, ast.IfExp) and (pol := polarity(e.test)) is not None:
+                e = e.body if pol == flag_value else e.orelse
+            return e
+
+        def block(stmts: list[ast.stmt]) -> bool:
+            """False when the suite is left early (continue / break / return / raise)."""
+            for st in stmts:
+                if isinstance(st, (ast.Continue, ast.Break, ast.Return, ast.Raise)):
+                    return False
+                if isinstance(st, ast.If):
+                    pol = polarity(st.test)
+                    if pol is not None:
+                        if not block(st.body if pol == flag_value else st.orelse):
+                            return False
+                        continue
+                    a, b = block(st.body), block(st.orelse)
+                    if not a and not b:
+                        return False
+                    continue
+                if isinstance(st, (ast.For, ast.While)):
+                    block(st.body)   # leaving the inner loop body early does not leave this suite
+                    continue
+                if isinstance(st, (ast.With, ast.Try)):
+                    if not block(st.body):
+                        return False
+                    continue
+                if isinstance(st, ast.Assign) and len(st.targets) == 1 and isinstance(st.targets[0], ast.Subscript):
+                    out.setdefault(u(st.targets[0]), []).append((pick(st.value), st))
+            return True
+
+        block(ibv.node.body)
+        return out
+
+    ibv = _view(prog, f"{BDA}._inclusion_exclusion_bounds")
+    sup_t, con_t = table_for(True), table_for(False)
+    run.check(set(sup_t) == set(con_t) and all(len(v) == 1 for v in list(sup_t.values()) + list(con_t.values())),
+              "C01.S", ib.qual, "supply and consume write the same bound cells, once each",
+              "supply and consume branches assign different bound tables", node=ib.node, file=ib.file,
+              instance=f"{ib.qual}: supply and consume assign the same bound tables")
     pairs = 0
-    for n in ast.walk(ib.node):
-        table: list[tuple[str, ast.AST, ast.AST, ast.AST]] = []   # (cell, supply value, consume value, node)
-        if isinstance(n, ast.If) and n.orelse and (pol := polarity(n.test)) is not None:
-            a_arm = {u(s.targets[0]): s.value for s in n.body if isinstance(s, ast.Assign) and len(s.targets) == 1}
-            b_arm = {u(s.targets[0]): s.value for s in n.orelse if isinstance(s, ast.Assign) and len(s.targets) == 1}
-            sup, con = (a_arm, b_arm) if pol else (b_arm, a_arm)
-            run.check(set(sup) == set(con), "C01.S", ib.qual, n,
-                      "supply and consume branches assign different bound tables", node=n, file=ib.file,
-                      instance=f"{ib.qual}: supply and consume branches assign the same bound tables @{sorted(sup)}")
-            table = [(k, sup[k], con[k], sup[k]) for k in sup if k in con]
-        elif isinstance(n, ast.Assign) and len(n.targets) == 1 and isinstance(n.value, ast.IfExp) \
-                and (pol := polarity(n.value.test)) is not None:
-            v = n.value
-            table = [(u(n.targets[0]), v.body if pol else v.orelse, v.orelse if pol else v.body, n)]
-        for k, sv, cv, node in table:
-            pairs += 1
-            sides = (_leaves(bound_form(sv)), _leaves(bound_form(cv)))
-            oriented = all(sign == "neg" and "lower" in txt for sign, txt in sides[0]) \
-                and all(sign == "pos" and "upper" in txt for sign, txt in sides[1])
-            run.check(oriented, "C01.S", ib.qual, f"{k}: supply uses -<lower bounds>, consume <upper bounds>",
-                      f"the arm taken for supply requests does not bound `{k}` by the negated lower bounds (or the "
-                      "consume arm not by the upper bounds): the two directions are exchanged",
-                      node=node, file=ib.file, instance=f"{ib.qual}: {k} supply arm uses negated lower bounds")
-            run.check(dual_form(sv) == bound_form(cv), "C01.S", ib.qual,
-                      f"{k} = {u(sv)}",
-                      f"the supply bound `{k} = {u(sv)}` is not the mirror image "
-                      f"(upper<->lower, min<->max, negated) of the consume bound `{u(cv)}`",
-                      node=node, file=ib.file,
-                      instance=f"{ib.qual}: {k} supply is the dual of consume")
+    for k in sorted(set(sup_t) & set(con_t)):
+        (sv, node), (cv, _n2) = sup_t[k][0], con_t[k][0]
+        if u(sv) == u(cv) and sv is cv:
+            continue  # not selected by the flag at all
+        for _once in (0,):
     if pairs < 4:
         raise AnalysisError(f"{ib.qual}: only {pairs} supply/consume bound pairs found")
 
